@@ -63,10 +63,12 @@ func c02Adversarial(name string, rnd *rand.Rand, variant int, hist map[string]in
 		txPropCreate(u1, "adv_vote", governance.ProposalTypeGeneral, oltAmt("1000000000"), 400, 0, m()),
 		txDomainCreate(u0, "adv.ol", oltAmt("1002000000000000000000"), m()),
 		txDomainCreate(u1, "sale.ol", oltAmt("1002000000000000000000"), m()),
+		txPropCreate(u0, "adv_wd", governance.ProposalTypeGeneral, oltAmt("1000000000"), 6, 0, m()),
 		txDelegate(u1, oltAmt("250000000000000000000"), m()),
 		txDelegate(u2, oltAmt("70000000000000000000"), m()),
 		txStake(e0, oltAmt("500000"), m()), txStake(self, oltAmt("600000"), m()))
 	blk("setup", txPropFund(u2, "adv_fund", oltAmt("5000"), m()),
+		txPropFund(u2, "adv_wd", oltAmt("9000"), m()), txPropFund(u4, "adv_wd", oltAmt("400"), m()),
 		txPropFund(u3, "adv_fund", oltAmt("700"), m()),
 		txDomainSell(u1, "sale.ol", oltAmt("5000000000000000000"), false, m()),
 		txUnstake(v1, oltAmt("1000"), m()),
@@ -109,7 +111,13 @@ func c02Adversarial(name string, rnd *rand.Rand, variant int, hist map[string]in
 			func(a action.Amount, mm string) []byte { return txDelegWithdrawRewards(u1, a, mm) }},
 		{"REWARDS_REINVEST_NETWORK_DELEGATE", []Key{u2}, unitOne, func(v *c02View) *big.Int { return c02Led(v, u2.Addr, c02BRewBal, "OLT") },
 			func(a action.Amount, mm string) []byte { return txDelegReinvest(u2, a, mm) }},
-		{"WITHDRAW_REWARD", []Key{v0.Stake}, c02E18, func(v *c02View) *big.Int { return c02Led(v, keys.Address("rewardpool"), c02BBal, "OLT") },
+		// base = the validator's matured reward claim (rwcum_balance_): a real validator with matured rewards
+		{"WITHDRAW_REWARD", []Key{v0.Stake}, c02E18, func(v *c02View) *big.Int {
+			if a := v.Side[c02Key{v0.Val.Addr.String(), c02BVRewBal, "OLT", ""}]; a != nil {
+				return a
+			}
+			return new(big.Int)
+		},
 			func(a action.Amount, mm string) []byte { return txWithdrawReward(v0, a, mm) }},
 		{"PROPOSAL_CREATE", []Key{u3}, unitOne, func(v *c02View) *big.Int { return c02Led(v, u3.Addr, c02BBal, "OLT") },
 			func(a action.Amount, mm string) []byte {
@@ -119,6 +127,17 @@ func c02Adversarial(name string, rnd *rand.Rand, variant int, hist map[string]in
 			func(a action.Amount, mm string) []byte { return txPropFund(u3, "adv_fund", a, mm) }},
 		{"PROPOSAL_WITHDRAW_FUNDS", []Key{u2}, unitOne, func(v *c02View) *big.Int { return c02Led(v, u2.Addr, c02BPropFund, "OLT") },
 			func(a action.Amount, mm string) []byte { return txPropWithdraw(u2, "adv_fund", a, u2.Addr, mm) }},
+		// a proposal whose funding deadline passed below the goal: withdrawal is eligible; the beneficiary is somebody else
+		{"PROPOSAL_WITHDRAW_FUNDS_ELIGIBLE", []Key{u2}, unitOne, func(v *c02View) *big.Int {
+			s := new(big.Int)
+			for k, a := range v.Led {
+				if k.Owner == u2.Addr.String() && k.Bucket == c02BPropFund && k.Sub == string(propID("adv_wd")) {
+					s.Add(s, a)
+				}
+			}
+			return s
+		},
+			func(a action.Amount, mm string) []byte { return txPropWithdraw(u2, "adv_wd", a, u4.Addr, mm) }},
 		{"DOMAIN_CREATE", []Key{u3}, unitOne, func(v *c02View) *big.Int { return c02Led(v, u3.Addr, c02BBal, "OLT") },
 			func(a action.Amount, mm string) []byte { return txDomainCreate(u3, "n"+mm+".ol", a, mm) }},
 		{"DOMAIN_RENEW", []Key{u0}, unitOne, func(v *c02View) *big.Int { return c02Led(v, u0.Addr, c02BBal, "OLT") },
@@ -144,7 +163,7 @@ func c02Adversarial(name string, rnd *rand.Rand, variant int, hist map[string]in
 			}{
 				{"-2^64", new(big.Int).Neg(two64)}, {"-1", big.NewInt(-1)}, {"0", big.NewInt(0)}, {"1", big.NewInt(1)},
 				{"base-1", new(big.Int).Sub(base, big.NewInt(1))}, {"base+1", new(big.Int).Add(base, big.NewInt(1))},
-				{"2^63-1", new(big.Int).Sub(two63, big.NewInt(1))}, {"2^63", two63}, {"2^64", two64}, {"2^64+1", new(big.Int).Add(two64, big.NewInt(1))}, {"10^40", ten40},
+				{"2^63-1", new(big.Int).Sub(two63, big.NewInt(1))}, {"2^63", two63}, {"2^64-2", new(big.Int).Sub(two64, big.NewInt(2))}, {"2^64", two64}, {"2^64+1", new(big.Int).Add(two64, big.NewInt(1))}, {"10^40", ten40},
 				{"base", base},
 			}
 			if ci > 0 && variant%2 == 0 {
